@@ -25,11 +25,11 @@ DONE = {
   'fixed-column readers are modelled on top of the contact model (C05/C14) and the superposition model (C13), with the rotation kernel as a '
   'recorded oracle (C06); reader columns, zone format, contact test and get_rmsd shape are regenerated. Coq proves: the readers read the wwPDB '
   'columns; the SQL route pairs by identity for any record order; missing atoms are left out; the fast route pairs by identity under the '
-  'same-relative-order condition and is refuted without it (F6); the reported value is the kernel residual on the centred fitted atoms; '
+  'same-relative-order condition and is refuted without it (F6); compute_izone equals the zone of the definition for every two-chain reference and cutoff; the reported value is the kernel residual on the centred fitted atoms; '
   'identical structures score 0. Harness: implementation vs extracted model (exact mean squared deviation from the recorded rotation) and vs the '
   'specification (zone + identity pairs from Coq, minimum evaluated by an independent Kabsch) on generated complexes, 4 routines x 2 methods.',
   'hand-written Gallina pipeline model with oracle rotation + Coq theorems + regenerated readers + differential check',
-  'PARTIAL: zone exactness (compute_izone = definition) is checked three ways on every run but not yet a theorem; the optimum over rotations is '
+  'The interface zone is proved equal to its definition (C07_izone_exact, on top of the C05/C14 theorems). The optimum over rotations is '
   'C06\'s theorem, evaluated numerically by the harness (binary64 Kabsch, 2e-4 guard band at rounding ties). Known finding F6. '
   'Print Assumptions: closed under the global context.'),
  'C08': ('§5.C08',
@@ -82,7 +82,9 @@ DONE = {
   'routines, clashes, DockQ and CAPRI class together with nine variants (lattice motions of decoy / of both, arbitrary rigid motion, rewritten ignored '
   'fields, residue-number shift, added hydrogens, three permutation levels x both enforcement settings); the C07 models are re-tied on a variant.',
   'Coq invariance theorems on the models (congruence, ring identities) + metamorphic differential check of the real routines',
-  'PARTIAL: invariance of the minimum-RMSD values, renumbering, hydrogens and permutations are decided by the metamorphic correspondence only. '
+  'Also proved: the residual left on a rigidly displaced copy m.P+t by the rotation r.m^T equals the residual left on P by r (rotation candidates '
+  'of the two problems correspond one to one, so the minimum RMSD is the same). PARTIAL: renumbering, hydrogens and permutations are decided by the '
+  'metamorphic correspondence only. '
   'Known finding F6 (permuted decoy + fast RMSD routes without enforcement). Print Assumptions: closed under the global context.'),
  'C12': ('§5.C12',
   'CAPRI cascade and DockQ formula are regenerated from the source by the translator on every run; theorems (total, equal to the '
@@ -121,7 +123,9 @@ DONE = {
   'equal, else through the identity-keyed many2sql intersection), centring on the selections, one rigid motion applied to ALL atoms, write-back of '
   'x,y,z only. Coq proves, for any matrix, atom list and selections: every atom undergoes the same affine map; with an orthogonal matrix all '
   'distances are preserved; the deviation left on the paired atoms equals the kernel residual on the centred selections (so optimality reduces to '
-  'C06); only coordinates change (count, order, all other cells); pairing is by identity when sizes differ and is refuted when they are equal (F7). '
+  'C06); centroid decomposition: the residual of ANY affine map r x + t on the pairs is the rotation residual on the centred sets plus '
+  'n|r cP + t - cQ|^2, hence superpose is optimal among ALL rigid motions (any rotation, any translation) as soon as its kernel rotation is optimal '
+  'among rotations on the centred sets (C06), with a non-vacuity example; only coordinates change (count, order, all other cells); pairing is by identity when sizes differ and is refuted when they are equal (F7). '
   'The harness runs superpose on real databases with the kernel wrapped, feeds the recorded matrix to the extracted model (exact rationals) and '
   'checks rigidity, optimality on the identity-matched selection against an independent Kabsch minimum, landing of rigid copies, untouched target, '
   'and the directory snapshot for export on/off.',
@@ -156,7 +160,7 @@ DONE = {
   '(induction over schedules), shared zone cache with atomic publication gives every task the same zone for all schedules (rely/guarantee), termination, and the '
   'refutation for an in-place writer (a schedule with a partial zone exists). The regenerated call-site table is proved to contain no scratch database and an '
   'atomic zone writer. Harness: every routine under wrappers of open/os/sqlite3/tempfile with directory snapshots and pre-seeded victim files; two real '
-  'computations in two threads parked at every intercepted action and released along model-enumerated schedules (predicted-bad ones first).',
+  '(including default-named ref/decoy .izone/.lzone files holding another zone); two real computations in two threads parked at every intercepted action and released along model-enumerated schedules (predicted-bad ones first).',
   'Gallina scripts + Coq theorems over all schedules + regenerated call-site table + controlled thread schedules and directory snapshots',
   'PARTIAL: os.replace atomicity, mkstemp freshness and OS scheduling inside SQLite/NumPy are oracles (bounded exercise). F8, F9 fixed in /repo. '
   'Print Assumptions: closed under the global context.'),
@@ -174,11 +178,17 @@ DONE = {
   'The coordinate formatter, the atom-name aligner and the sequence of format specifications of data2pdb are regenerated from the source '
   'on every run; Coq proves for all rationals that a coordinate raises exactly outside (-1e7+0.5, 1e8-0.5) and otherwise occupies exactly 8 '
   'columns with the decimals of the interval table and a rounding error of at most half a unit, and that every row fitting its field widths '
-  'is written as exactly 80 columns. Column placement (line_ok), the parse/export round trip, re-export and canonical-record reproduction '
-  'are decided on every run by the executable Coq specification applied to the implementation output (threshold windows, wide tables, bundled files).',
+  'is written as exactly 80 columns, every piece of the layout occupying exactly its own columns, which today are the wwPDB columns; '
+  'integer and text fields read back exactly; float() of any fixed-point field the exporter writes is the printed decimal rounded once to '
+  'binary64, so the regenerated parser (parse_field over the regenerated column table) reads from the exported line of any fitting row each '
+  'coordinate within half a unit of the printed precision and occupancy/B-factor within 0.005. The whole-row comparison (approx_row), re-export '
+  'and canonical-record reproduction are decided on every run by the executable Coq specification applied to the implementation output '
+  '(threshold windows, wide tables, bundled files).',
   'regenerated Gallina model + Coq theorems (digit-length lemmas, lra cell decomposition) + executable Coq spec applied to implementation output',
-  'CPython str.format modelled in PyLib.v (fixed-point formatting correctly rounded on the exact binary value). PARTIAL: line_ok and round-trip '
-  'are checked by the executable spec and by implementation = model, not yet proved as theorems. Print Assumptions: closed under the global context.'),
+  'CPython str.format / float() modelled in PyLib.v (fixed-point formatting correctly rounded on the exact binary value). PARTIAL: the closed form of '
+  '"as many decimals as fit" (max_fit), the composition of the per-field theorems into the whole-row round trip through the blank-field defaults, '
+  'the final binary64 rounding bound and idempotence of re-export are checked by the executable spec and by implementation = model, not proved. '
+  'Print Assumptions: closed under the global context.'),
  'C01': ('§5.C01',
   'Slice table, column types, record prefixes, blank-field defaults, 80-column guard, segID and element rules are regenerated from the '
   'source on every run; Coq proves for every printable record that the regenerated parser returns exactly the row (or error) of the wwPDB '
@@ -186,7 +196,8 @@ DONE = {
   'The input-form dispatch and loop skeleton are hand-modelled and compared with the implementation on generated files x 8 container forms.',
   'regenerated Gallina model + Coq theorems (induction over lines, per-field equalities) + differential check vs extracted model/spec',
   'CPython str/int()/float() primitives modelled in PyLib.v for printable ASCII (exotic numerals and MODEL/ENDMDL outside the model); '
-  'forms_agree is covered by correspondence, not yet by a theorem. Print Assumptions: closed under the global context.'),
+  'forms_agree (all list / ndarray / bytes / str / file forms of one text give the same table: a theorem on the modelled dispatch, the '
+  'container conversions themselves by correspondence). Print Assumptions: closed under the global context.'),
 }
 checks = []
 for p in props:
